@@ -31,6 +31,7 @@ f1 == NF(B8(63,240,0,0,0,0,0,0))       f15 == NF(B8(63,248,0,0,0,0,0,0))
 fm0 == NF(B8(128,0,0,0,0,0,0,0))       f0 == NF(B8(0,0,0,0,0,0,0,0))
 f2p53 == NF(B8(67,64,0,0,0,0,0,0))     fm1 == NF(B8(191,240,0,0,0,0,0,0))
 f2p64 == NF(B8(67,240,0,0,0,0,0,0))
+ftiny == NF(B8(0,0,0,0,0,0,0,1))        fmtiny == NF(B8(128,16,0,0,0,0,0,0))
 fnan == NF(B8(127,248,0,0,0,0,0,0))    finf == NF(B8(127,240,0,0,0,0,0,0))
 fninf == NF(B8(255,240,0,0,0,0,0,0))
 
@@ -75,7 +76,11 @@ PairDocs ==
         Obj(<< <<ka, u1>> >>), Obj(<< <<ka, f1>> >>), Obj(<< <<ka, u1>>, <<kb, u2>> >>), Obj(<< <<kb, u2>> >>),
         Obj(<< <<ka, Arr(<<u1, u2>>)>> >>), Obj(<< <<ka, Arr(<<u2>>)>> >>), Obj(<< <<ka, Obj(<< <<kb, Null>> >>)>> >>),
         Obj(<< <<ka, Obj(<<>>)>> >>), Arr(<<Arr(<<>>)>>), Arr(<<Obj(<<>>)>>), Arr(<<Null, Null>>),
-        Arr(<<fm0>>), Arr(<<u0>>), Arr(<<u2p53p1>>), Arr(<<f2p53>>), Arr(<<u2p53>>)}
+        Arr(<<fm0>>), Arr(<<u0>>), Arr(<<u2p53p1>>), Arr(<<f2p53>>), Arr(<<u2p53>>),
+        \* adjacent payload-free scalars of different types; longer lists sharing elements in another order
+        f0, Arr(<<f0>>), ftiny, fmtiny, Arr(<<ftiny, u1>>), Arr(<<u0, u2>>), Arr(<<fmtiny>>),
+        Arr(<<True>>), Arr(<<True, False>>), Arr(<<False, True>>), Arr(<<Null, sEmpty>>), Arr(<<sEmpty>>), Arr(<<sEmpty, Null, False>>),
+        Arr(<<u1, u2, sa>>), Arr(<<sa, u2, u1, u2>>), Arr(<<u2, sa, u1>>), Obj(<< <<ka, True>>, <<kb, False>> >>), Obj(<< <<ka, True>> >>)}
 
 \* decimal lexemes for the floats of the universes (checked by BigNat!IsRN wherever they are used)
 FL == << <<f1.b, <<49, 46, 48>> >>, <<f15.b, <<49, 46, 53>> >>, <<fm0.b, <<45, 48, 46, 48>> >>, <<f0.b, <<48, 46, 48>> >>,
